@@ -101,6 +101,8 @@ def _create(cfg):
         else:
             w = Wallet.create('w', keys=ks, sigs_required=m, cosigner_id=0, **kw)
     elif cfg['origin'] == 'seed':
+        if cfg.get('account'):
+            kw['account_id'] = cfg['account']
         w = Wallet.create('w', keys=HDKey.from_seed(wh.seed_bytes(seed).hex(), network=net, witness_type=wt), **kw)
     elif cfg['origin'] == 'mnemonic':
         w = Wallet.create('w', keys=' '.join(bip39.to_words(_entropy(seed))), **kw)
@@ -162,6 +164,23 @@ def _do(w, ev, cfg):
             w.new_account()
         elif kind == 'new_key_acc1':
             w.new_key(account_id=1)
+        elif kind in ('new_key_acc', 'new_key_change_acc', 'get_key_acc', 'get_keys_acc', 'path_acc'):
+            a = ev[1]
+            if kind == 'new_key_acc':
+                ks = [w.new_key(account_id=a)]
+            elif kind == 'new_key_change_acc':
+                ks = [w.new_key_change(account_id=a)]
+            elif kind == 'get_key_acc':
+                ks = [w.get_key(account_id=a)]
+            elif kind == 'get_keys_acc':
+                ks = w.get_keys(account_id=a, number_of_keys=2)
+            else:
+                ks = [w.key_for_path([ev[2], ev[3]], account_id=a)]
+                explicit.add((w.witness_type, a, ev[2], ev[3]))
+            for k in ks:
+                if k.account_id != a or ("/%d'/" % a) not in k.path:
+                    raise _WrongAccount('%s returned a key of account %s (path %s) for requested account %d' % (
+                        kind, k.account_id, k.path, a))
         elif kind == 'new_key_otherwt':
             w.new_key(witness_type=_other_wt(cfg['wt']))
         elif kind == 'mark_used':
@@ -176,7 +195,13 @@ def _do(w, ev, cfg):
             raise ValueError(kind)
     except WalletError:
         return w, 'refused', explicit
+    except _WrongAccount as e:
+        return w, 'wrong_account:' + str(e), explicit
     return w, 'ok', explicit
+
+
+class _WrongAccount(Exception):
+    pass
 
 
 def _rows(w):
@@ -205,6 +230,9 @@ def sub_hist(case):
             before = set(rows)
             w, label, explicit = _do(w, ev, cfg)
             explicit_all |= explicit
+            if label.startswith('wrong_account:'):
+                devs.append({'sig': 'key_of_another_account_returned|%s' % ev[0], 'detail': {'what': label[14:]}})
+                label = 'ok'
             rows, dup = _rows(w)
             new = set(rows) - before
             gone = before - set(rows)
@@ -315,6 +343,10 @@ def run(ctx):
             c['multisig'] = multisig
         cfgs.append(c)
     add('seed', 'bitcoinlib_test', 'segwit', EV_FULL)
+    ev_acc = [['new_key'], ['new_key_acc', 0], ['new_key_acc', 5], ['new_key_change_acc', 0], ['get_key_acc', 0],
+              ['get_keys_acc', 0], ['path_acc', 0, 0, 4], ['get_key'], ['new_account'], ['mark_used'], ['reopen']]
+    cfgs.append({'origin': 'seed', 'network': 'bitcoinlib_test', 'wt': 'segwit', 'seed': seed, 'events': ev_acc,
+                 'account': 5})
     add('mnemonic', 'bitcoin', 'segwit', EV_SMALL)
     add('xprv', 'bitcoin', 'legacy', EV_SMALL)
     add('watch', 'bitcoin', 'segwit', EV_WATCH)
